@@ -15,7 +15,7 @@ GRID = sorted(set(
                                       3037000499, 3037000500)]))
 ARITH = ["+", "-", "*", "/", "%"]
 CMP = ["<", "<=", ">", ">=", "==", "!="]
-FORMS = ["plain", "var", "elem", "prop", "key"]
+FORMS = ["plain", "var", "elem", "prop", "key", "shadow"]
 BATCH = 250
 
 
@@ -50,6 +50,11 @@ def stmts_for(form, op, a, b, idx):
     if form == "var":
         x = "x%d" % idx
         return [A.Declare(V(x), la), A.OpAssign(op, V(x), lb), A.pr(V(x))]
+    if form == "shadow":
+        # the op-assigned variable shadows an outer one of the same name (which must stay untouched)
+        x = "s%d" % idx
+        return [A.Declare(V(x), A.Int(77)), A.Block([A.Declare(V(x), la), A.OpAssign(op, V(x), lb), A.pr(V(x))]),
+                A.If([(A.Bin("!=", V(x), A.Int(77)), [A.pr(A.Str("outer variable changed"))])], None)]
     if form == "elem":
         x = "l%d" % idx
         return [A.Declare(V(x), A.lst(A.Int(7), la)), A.OpAssign(op, A.Index(V(x), A.Int(1)), lb), A.pr(A.Index(V(x), A.Int(1)))]
